@@ -20,7 +20,7 @@ REPO = '/repo'
 
 def _worker(job):
     """job = (contract modules, contract key, timeout_ms, fuzz_n, seed)"""
-    mods, key, timeout_ms, fuzz_n, seed, want_smt = job
+    mods, key, timeout_ms, fuzz_n, seed, want_smt, witnesses = job
     t0 = time.time()
     try:
         from pyvc import api, verify, fuzz
@@ -40,7 +40,33 @@ def _worker(job):
             res = {'contract': key, 'target': c.target, 'status': 'assumed', 'obligations': [], 'notes': [c.trusted_note or ''],
                    'paths': 0, 'props': list(c.props)}
         else:
-            res = verify.verify_contract(c, reg, timeout_ms=timeout_ms, want_smt=want_smt)
+            res = verify.verify_contract(c, reg, timeout_ms=timeout_ms, want_smt=want_smt, opaque=True, witnesses=witnesses)
+            need = res.get('status') == 'ok' and any(o.get('abstract') or (o['failed'] and res.get('opaque_specs')) or o['unknown']
+                                                      for o in res['obligations']) and res.get('opaque_specs')
+            if need:
+                # Some obligation could not be decided with specification functions kept abstract.  Search for a concrete
+                # counterexample on the specification bodies in a small sub-space (refutation only: nothing found there
+                # proves nothing, and discharged counts of that pass are not used).
+                try:
+                    second = verify.verify_contract(c, reg, timeout_ms=timeout_ms, opaque=False, witnesses=witnesses,
+                                                    refute=True, time_limit=240)
+                except Exception as e:
+                    second = {'status': 'crash', 'obligations': [], 'error': repr(e)}
+                byname = {o['name']: o for o in second.get('obligations', [])}
+                for o in res['obligations']:
+                    o2 = byname.get(o['name'])
+                    if not (o.get('abstract') or o['unknown']) or o2 is None:
+                        continue
+                    confirmed = [x for x in o2['failed'] if x and x.get('confirmed')]
+                    if confirmed:
+                        o['failed'] += confirmed[:3]
+                        o['abstract'] = 0
+                    for pid, cexs in o2['known'].items():
+                        o['known'].setdefault(pid, []).extend(cexs[:2])
+                        o['abstract'] = 0
+                res['notes'] = list(res.get('notes', [])) + ['refutation search with transparent specification functions: %s, %d paths, %.1fs'
+                                                             % (second.get('status'), second.get('paths', 0), second.get('wall_s', 0))]
+        res['bounded'] = c.bounded
         try:
             res['fuzz'] = fuzz.fuzz_contract(c, fuzz_n, seed)
         except Exception as e:
@@ -96,13 +122,15 @@ def run_property(prop, tier='quick', seed=0):
         return 3
     timeout_ms = 10000 if tier == 'quick' else 60000
     fuzz_n = getattr(pmod, 'FUZZ_QUICK', 300) if tier == 'quick' else getattr(pmod, 'FUZZ_THOROUGH', 20000)
-    jobs = [(mods, k, timeout_ms, fuzz_n, seed, True) for k in keys]
+    opens, _ = load_known(os.path.join(ROOT, 'known_findings.txt'))
+    witnesses = {o['id']: o['input'] for o in opens if o.get('property') == prop and 'input' in o and 'id' in o}
+    jobs = [(mods, k, timeout_ms, fuzz_n, seed, True, witnesses) for k in keys]
     nproc = min(16, max(1, len(jobs)))
     with mp.get_context('fork').Pool(nproc) as pool:
         results = pool.map(_worker, jobs, chunksize=1)
     extra = []
     if hasattr(pmod, 'extra_checks'):
-        extra = pmod.extra_checks(tier, seed)      # list of dicts like contract results (lemmas, concrete data checks)
+        extra = pmod.extra_checks(tier, seed, [o for o in opens if o.get('property') == prop])      # list of dicts like contract results (lemmas, concrete data checks)
         results += extra
     return report(prop, pmod, results, tier, seed, t0)
 
@@ -152,9 +180,14 @@ def report(prop, pmod, results, tier, seed, t0):
                  'runtime_contract_evaluations': fz.get('runs', 0), 'wall_s': round(r.get('wall_s', 0), 3)}
         for i in r.get('inlined') or []:
             pass
+        is_bounded = bool(r.get('bounded'))
+        if is_bounded:
+            bounded.append('%s: BOUNDED STAND-IN (%s): %d obligation instances, %d hold as stated, not counted as proved'
+                           % (key, r['bounded'], sum(o['paths'] for o in r['obligations']), sum(o['discharged'] for o in r['obligations'])))
         for o in r['obligations']:
-            n_obl += o['paths']
-            n_dis += o['discharged']
+            if not is_bounded:
+                n_obl += o['paths']
+                n_dis += o['discharged']
             finfo['obligations'] += o['paths']
             finfo['discharged'] += o['discharged']
             finfo['solver_s'] += o['secs']
@@ -169,7 +202,8 @@ def report(prop, pmod, results, tier, seed, t0):
             for pid, cexs in o['known'].items():
                 listed = [x for x in opens_p if x.get('id') == pid]
                 if listed:
-                    n_known += len(cexs)
+                    if not is_bounded:
+                        n_known += len(cexs)
                     if pid not in matched_ids:
                         matched_ids.add(pid)
                         known_lines.append('KNOWN-FINDING: property=%s id=%s obligation=%s %s'
@@ -180,6 +214,8 @@ def report(prop, pmod, results, tier, seed, t0):
                         violations.append((o['name'], cex, 'pin %s matches but is not listed as an open finding for %s' % (pid, prop)))
             for cex in o['failed']:
                 violations.append((o['name'], cex, None))
+            if o.get('abstract'):
+                undecided.append((o['name'], 'abstract-counterexample', 'not confirmed natively'))
             if o['unknown']:
                 led = ledger.get(o['name'])
                 if led and led.get('discharged', 0) >= o['paths']:
